@@ -156,40 +156,57 @@ case("lambda_self_tuple", "rule S/I: a closure instance with a tuple-valued self
 case("match_binder_captured_by_closure", "rule M/V: the payload binder of a constructor arm is a cell a closure can capture",
      prog([fun(1, [(2, F, None)], pick50(V(2)))], [match(app(1, NOW), (mc(50, 1, 5), ('pipe', L(6), lam([7], add(V(5), V(7))))), (MW, L(0)))], types=[T50]), n=4)
 
+# ---- repaired findings (M1 M3 M5 MG W10 W11 W12 W13): regression inputs, both backends must equal the reference ----
+case("fixed_M1_wildcard_arm_first", "repaired M1: the arms after a `_` arm are never taken (before the repair both backends played 10 20 30 for 30 30 30)",
+     prog([], [match(NOW, (MW, L(30)), (ml(0), L(10)), (ml(1), L(20)))]), n=3)
+case("fixed_M1b_tuple_general_arm_first", "repaired M1: (_, _) before (0, 0): the first arm that matches is taken (before the repair 2 1 1 for 1 1 1)",
+     prog([], [match(tup(NOW, L(0)), (mt(MW, MW), L(1)), (mt(ml(0), ml(0)), L(2)))]), n=3)
+case("fixed_M3_duplicate_literal_arm", "repaired M3: of two arms with the same literal the first is taken on both backends (the VM took the last: 15 20 30 for 10 20 30)",
+     prog([], [match(NOW, (ml(0), L(10)), (ml(0), L(15)), (ml(1), L(20)), (MW, L(30)))]), n=3)
+case("fixed_M5_nested_payload_pattern_in_tuple_match", "repaired M5: (x, (y, z)) inside a constructor pattern inside a tuple pattern binds the right components (788 before the repair, 789)",
+     prog([], [match(tup(L(1), con(52, 0, tup(L(7), tup(L(8), L(9))))),
+                     (mt(MW, mc(52, 0, ('pt', [('pv', 1), ('pt', [('pv', 2), ('pv', 3)])]))), add(add(mul(V(1), L(100)), mul(V(2), L(10))), V(3))), (MW, L(0)))],
+          types=[(52, [T(F, T(F, F)), None])]), n=2)
+case("fixed_MG_global_match_payload_wasm", "repaired MG: a match with a payload binder in a top-level let (WASM gave 0.0 for 4)",
+     prog([glet(1, match(con(53, 0, tup(L(1), L(6))), (mc(53, 1, pt(2, 3, 4)), V(2)), (MW, L(4))))], [V(1)], types=[(53, [T(F, F), T(F, F, F)])]), n=2)
+case("fixed_MGb_global_match_payload_vm_panic", "repaired MG: the payload binder of a top-level match used in an if (VM compile panic `value reg(N) not found` before the repair)",
+     prog([glet(1, match(con(54, 1, L(2)), (mc(54, 0, 2), ('if', V(2), L(1), V(2))), (MW, L(0))))], [V(1)], types=[(54, [F, F])]), n=2)
+case("fixed_W10_lambda_returns_sum_self", "repaired W10: a lambda whose result is its own sum-typed self (WASM: invalid module before the repair)",
+     prog([fun(1, [], lam([2], let(3, match(('selfs', ('ss', 55, ['N', ('st', ['N', 'N'])])), (mc(55, 0, 4), V(4)), (mc(55, 1, pt(5, 6)), V(5))),
+                                   ('selfs', ('ss', 55, ['N', ('st', ['N', 'N'])]))))), glet(7, app(1))],
+          [match(app(7, NOW), (mc(55, 0, 4), V(4)), (mc(55, 1, pt(5, 6)), add(mul(V(5), L(100)), V(6))))], types=[(55, [F, T(F, F)])]), n=2)
+case("fixed_W10b_lambda_returns_sum_self_vm", "repaired W10: the match on the result of such a lambda takes the arm of the first constructor (the VM took no arm: 0.0 for 1.0)",
+     prog([fun(1, [], lam([2], ('selfs', ('ss', 58, [None, ('st', ['N', 'N']), 'N'])))), glet(3, app(1))],
+          [match(app(3, L(1)), (mc(58, 0), L(1)), (mc(58, 1, ('pw',)), L(2)), (mc(58, 2, 4), L(3)))], types=[(58, [None, T(F, F), F])]), n=2)
+case("fixed_W11_tuple_match_binder_captured", "repaired W11: a closure capturing the payload binder of a constructor pattern inside a tuple pattern (WASM read an address, 5.18e-321 for 7)",
+     prog([], [match(tup(con(56, 0, L(7)), L(1)), (mt(mc(56, 0, 1), MW), ('pipe', L(6), lam([2], V(1)))), (MW, L(0)))], types=[(56, [F, None])]), n=2)
+case("fixed_W12_self_pattern_var_in_tuple", "repaired W12: | | { let (a, b) = self  (a, b) }: a closure capturing a component of the result (WASM read an address)",
+     prog([fun(1, [], lam([], let(pt(2, 3), ('selfs', ('st', ['N', 'N'])), tup(V(2), V(3))))), glet(4, app(1))],
+          [let(pt(5, 6), app(4), let(7, lam([8], V(6)), app(7, L(1))))]), n=2)
+case("fixed_W13_instance_calls_instance_of_same_lambda", "repaired W13: an instance of a stateful lambda calls another instance of the same lambda (WASM played 2 4 6 for 2 5 9)",
+     prog([fun(1, [(2, Fn([F], F), None)], lam([3], add(add(app(2, L(3)), SELF), L(1)))), glet(4, app(1, lam([5], L(0)))), glet(6, app(1, V(4)))],
+          [app(6, L(0))]), n=3)
+case("fixed_M1c_wildcard_arm_in_the_middle_with_state", "repaired M1: the arms behind a `_` arm are dead, stateful arms before it keep their state",
+     prog([fun(1, [(2, F, None)], add(SELF, V(2)))],
+          [match(sub(NOW, mul(L(2), ('if', gt(NOW, L(1)), L(1), L(0)))), (ml(0), app(1, L(1))), (MW, app(1, L(10))), (ml(1), app(1, L(100))), (ml(0), L(7)))]), n=6)
+case("fixed_M3b_duplicate_constructor_arm", "repaired M3: two arms with the same constructor: the first is taken",
+     prog([fun(1, [(2, F, None)], pick50(V(2)))],
+          [match(app(1, NOW), (mc(50, 1, 5), V(5)), (mc(50, 1, 6), add(V(6), L(1000))), (mc(50, 0), L(-1)), (MW, L(-2)))], types=[T50]), n=4)
+case("fixed_M1d_tuple_of_sums_general_arm_first", "repaired M1: a tuple arm with `_` in a column before an arm with a constructor there",
+     prog([fun(1, [(2, F, None)], pick50(V(2)))],
+          [match(tup(app(1, NOW), NOW), (mt(MW, ml(1)), L(5)), (mt(mc(50, 1, 5), MW), V(5)), (mt(mc(50, 1, 6), ml(1)), L(77)), (MW, L(-2)))], types=[T50]), n=4)
+
 # ---------------- finding witnesses: the recorded deviation is expected; a change is reported ----------------
-case("M1_wildcard_arm_first", "both backends: `_` is the default wherever it stands: the arm 0 => .. after it is still taken (reference 30,30,30)",
-     prog([], [match(NOW, (MW, L(30)), (ml(0), L(10)), (ml(1), L(20)))]), n=3, finding="M1")
-case("M1b_tuple_general_arm_first", "both backends: the decision tree tries (0, 0) before (_, _) (reference 1,1,1)",
-     prog([], [match(tup(NOW, L(0)), (mt(MW, MW), L(1)), (mt(ml(0), ml(0)), L(2)))]), n=3, finding="M1")
 case("M2_duplicated_arm_state", "both backends: the `_` arm of a tuple match is compiled once per branch of the decision tree, each copy with its own state (reference 1 200 2 3 200 4 5 200)",
      prog([fun(1, [(2, F, None)], add(SELF, V(2)))],
           [match(tup(sub(NOW, mul(L(3), ('if', gt(NOW, L(5)), L(2), ('if', gt(NOW, L(2)), L(1), L(0))))), L(1)),
                  (mt(ml(0), ml(0)), L(100)), (mt(ml(1), MW), L(200)), (MW, app(1, L(1))))]), n=8, finding="M2")
-case("M3_duplicate_literal_arm", "VM: of two arms with the same literal the last one is taken (reference and WASM: the first; 10 20 30)",
-     prog([], [match(NOW, (ml(0), L(10)), (ml(0), L(15)), (ml(1), L(20)), (MW, L(30)))]), n=3, finding="M3")
-case("M5_nested_payload_pattern_in_tuple_match", "both backends: (x, (y, z)) inside a constructor pattern inside a tuple pattern binds y and z to the same component (reference 789)",
-     prog([], [match(tup(L(1), con(52, 0, tup(L(7), tup(L(8), L(9))))),
-                     (mt(MW, mc(52, 0, ('pt', [('pv', 1), ('pt', [('pv', 2), ('pv', 3)])]))), add(add(mul(V(1), L(100)), mul(V(2), L(10))), V(3))), (MW, L(0)))],
-          types=[(52, [T(F, T(F, F)), None])]), n=2, finding="M5")
-case("MG_global_match_payload_wasm", "WASM: a match with a payload binder in a top-level let gives 0.0 (reference and VM 4)",
-     prog([glet(1, match(con(53, 0, tup(L(1), L(6))), (mc(53, 1, pt(2, 3, 4)), V(2)), (MW, L(4))))], [V(1)], types=[(53, [T(F, F), T(F, F, F)])]), n=2, finding="MG")
-case("MGb_global_match_payload_vm_panic", "VM: compile panic `value reg(N) not found` when the payload binder of a top-level match is used in an if (reference 0)",
-     prog([glet(1, match(con(54, 1, L(2)), (mc(54, 0, 2), ('if', V(2), L(1), V(2))), (MW, L(0))))], [V(1)], types=[(54, [F, F])]), n=2, finding="MG")
-case("W10_lambda_returns_sum_self", "WASM: invalid module for a lambda whose result is its own sum-typed self (reference 0,0)",
-     prog([fun(1, [], lam([2], let(3, match(('selfs', ('ss', 55, ['N', ('st', ['N', 'N'])])), (mc(55, 0, 4), V(4)), (mc(55, 1, pt(5, 6)), V(5))),
-                                   ('selfs', ('ss', 55, ['N', ('st', ['N', 'N'])]))))), glet(7, app(1))],
-          [match(app(7, NOW), (mc(55, 0, 4), V(4)), (mc(55, 1, pt(5, 6)), add(mul(V(5), L(100)), V(6))))], types=[(55, [F, T(F, F)])]), n=2, finding="W10")
-case("W10b_lambda_returns_sum_self_vm", "VM: the same lambda: the match on its result takes no arm (0.0; reference 1.0: self starts as the first constructor)",
-     prog([fun(1, [], lam([2], ('selfs', ('ss', 58, [None, ('st', ['N', 'N']), 'N'])))), glet(3, app(1))],
-          [match(app(3, L(1)), (mc(58, 0), L(1)), (mc(58, 1, ('pw',)), L(2)), (mc(58, 2, 4), L(3)))], types=[(58, [None, T(F, F), F])]), n=2, finding="W10")
-case("W11_tuple_match_binder_captured", "WASM: a closure capturing the payload binder of a constructor pattern inside a tuple pattern reads an address (reference 7)",
-     prog([], [match(tup(con(56, 0, L(7)), L(1)), (mt(mc(56, 0, 1), MW), ('pipe', L(6), lam([2], V(1)))), (MW, L(0)))], types=[(56, [F, None])]), n=2, finding="W11")
-case("W12_self_pattern_var_in_tuple", "WASM: | | { let (a, b) = self  (a, b) }: a closure capturing a component of the result reads an address (reference 0)",
-     prog([fun(1, [], lam([], let(pt(2, 3), ('selfs', ('st', ['N', 'N'])), tup(V(2), V(3))))), glet(4, app(1))],
-          [let(pt(5, 6), app(4), let(7, lam([8], V(6)), app(7, L(1))))]), n=2, finding="W12")
-case("W13_instance_calls_instance_of_same_lambda", "WASM: the inner of two nested instances of one lambda loses its state (reference 2 5 9)",
-     prog([fun(1, [(2, Fn([F], F), None)], lam([3], add(add(app(2, L(3)), SELF), L(1)))), glet(4, app(1, lam([5], L(0)))), glet(6, app(1, V(4)))],
-          [app(6, L(0))]), n=3, finding="W13")
+case("MG_lambda_captures_global_match_binder", "what is left of MG: a lambda in an arm of a top-level match captures the payload binder: VM compile panic `value reg(N) not found`, WASM 1 (reference 3)",
+     prog([glet(1, match(con(59, 0, L(2)), (mc(59, 0, 2), ('pipe', L(1), lam([3], add(V(2), V(3))))), (MW, L(0))))], [V(1)], types=[(59, [F, None])]), n=2, finding="MG")
+case("W9b_tuple_match_binder_escapes", "what is left of W11 (class W9): the closure over the payload binder of a tuple match ESCAPES: on WASM it holds the address of the payload in the frame of the function and reads what the latest call wrote (reference 601 602 603, WASM 101 202 303)",
+     prog([fun(1, [(2, S(60), None)], match(tup(V(2), L(1)), (mt(mc(60, 0, 3), MW), let(4, lam([5], add(V(3), V(5))), V(4))), (MW, let(6, lam([7], V(7)), V(6))))),
+           glet(8, app(1, con(60, 0, L(5))))],
+          [let(9, app(1, con(60, 0, add(NOW, L(1)))), add(mul(app(8, L(1)), L(100)), app(9, L(1))))], types=[(60, [F, None])]), n=3, finding="W9")
 case("PROJ_match_arm_value", "WASM: a projection as the value of a match arm: the OTHER arms give 0.0 (reference 8 4 4)",
      prog([], [let(1, tup(L(7), L(8)), match(NOW, (ml(0), ('proj', V(1), 1)), (MW, L(4))))]), n=3, finding="PROJ")
 case("PROJ_constructor_payload", "WASM: a projection as the payload of a constructor stores the address (reference 0)",
